@@ -17,8 +17,79 @@ type (
 	Source = rand.Source
 )
 
-func New(src rand.Source) *rand.Rand  { return rand.New(src) }
+// ConcurrentUse is the panic value of a private generator that is entered by a
+// second goroutine while a first one is still inside it.
+const ConcurrentUse = "simrand: concurrent use of a *rand.Rand (not safe for concurrent use: the real generator's state gets corrupted, e.g. index out of range [-1] in math/rand.(*rngSource).Uint64)"
+
+// New returns a private generator like math/rand.New. A *rand.Rand is
+// documented as not safe for concurrent use, but what goes wrong happens inside
+// the un-instrumented standard library, where the simulator never switches
+// goroutines. So the source is wrapped with a sentinel: inside a run every draw
+// (and Seed) marks the generator busy, passes a scheduler gate - so that another
+// goroutine can be scheduled INSIDE the call - and only then delegates; a
+// goroutine that finds the generator busy panics with ConcurrentUse, as the
+// real runtime may. Code that serialises the use of its generator with an
+// (instrumented) mutex or a channel never finds it busy. Outside a run the
+// wrapper only delegates.
+func New(src rand.Source) *rand.Rand {
+	if _, ok := src.(*guardedSource); ok {
+		return rand.New(src)
+	}
+	g := &guardedSource{src: src}
+	g.s64, _ = src.(rand.Source64)
+	return rand.New(g)
+}
+
 func NewSource(seed int64) rand.Source { return rand.NewSource(seed) }
+
+type guardedSource struct {
+	src  rand.Source
+	s64  rand.Source64
+	busy bool // plain: between two gates only one goroutine of a run executes
+}
+
+func (g *guardedSource) enter() bool {
+	if sim.Active() == nil {
+		return false
+	}
+	if g.busy {
+		panic(ConcurrentUse)
+	}
+	g.busy = true
+	sim.Yield(sim.GateUser, "rand.Rand")
+	return true
+}
+
+func (g *guardedSource) Int63() int64 {
+	in := g.enter()
+	v := g.src.Int63()
+	if in {
+		g.busy = false
+	}
+	return v
+}
+
+func (g *guardedSource) Uint64() uint64 {
+	in := g.enter()
+	var v uint64
+	if g.s64 != nil {
+		v = g.s64.Uint64()
+	} else {
+		v = uint64(g.src.Int63())>>31 | uint64(g.src.Int63())<<32
+	}
+	if in {
+		g.busy = false
+	}
+	return v
+}
+
+func (g *guardedSource) Seed(seed int64) {
+	in := g.enter()
+	g.src.Seed(seed)
+	if in {
+		g.busy = false
+	}
+}
 
 func Seed(seed int64) {
 	if sim.Active() == nil {
